@@ -105,7 +105,9 @@ pub fn mutate(text: &str, rng: &mut Rng) -> String {
       }
       let i = idx[rng.below(idx.len())];
       let mut s = text.to_string();
-      s.insert(i, *rng.pick(&['é', '中', '𝒳']));
+      // one char per UTF-8 length class and lead-byte boundary: C3, DF (U+07FF), E0 (U+0800, U+0E01,
+      // U+0FFF), E1 (U+1000), E4, EF (U+FFFD), F0 (U+10000, U+1D4B3), F4 (U+10FFFF)
+      s.insert(i, *rng.pick(&['é', '\u{7FF}', '\u{800}', 'ก', '\u{FFF}', '\u{1000}', '中', '\u{FFFD}', '\u{10000}', '𝒳', '\u{10FFFF}']));
       s
     }
     3 => text.trim_end_matches('\n').to_string(),
